@@ -156,6 +156,16 @@ def vol_check(kind, case, rec):
     rec.require("no-warning-in-another-length-unit", not any("negative" in str(w_.message).lower() or "volume" in str(w_.message).lower() for w_ in wl), [str(w_.message)[:60] for w_ in wl])
     rec.close("dV-in-another-length-unit=L^dim dV", float(np.abs(np.asarray(rl.dV) / L**dim - np.asarray(region.dV)).max() / np.abs(region.dV).max()), 1e-12, {"L": L})
     rec.close("dhdX-in-another-length-unit=dhdX / L", float(np.abs(np.asarray(rl.dhdX) * L - np.asarray(region.dhdX)).max() / np.abs(region.dhdX).max()), 1e-11, {"L": L})
+    if kind in ("quad9", "hexahedron27"):
+        # the second-order Lagrange element numbers its points like the bi- / tri-quadratic VTK cells: an arbitrary-order region on a
+        # mesh made by inserting mid-points (not by the Lagrange mesh generators) measures the same cells
+        with warnings.catch_warnings(record=True) as wl:
+            warnings.simplefilter("always")
+            rlag = fem.RegionLagrange(mesh, order=2, dim=dim)
+        rec.require("lagrange-region-on-a-mid-point-mesh:no-warning", len(wl) == 0, [str(w_.message)[:60] for w_ in wl])
+        vl, vt = np.asarray(rlag.dV).sum(0), np.asarray(region.dV).sum(0)
+        rec.close("lagrange-region-on-a-mid-point-mesh:cell-volumes", float(np.abs(vl - vt).max() / np.abs(vt).max()) if vl.shape == vt.shape else float("inf"), 1e-12)
+        rec.require("lagrange-region-on-a-mid-point-mesh:dV-positive", bool((np.asarray(rlag.dV) > 0).all()))
     rec.label("cells>=2" if mesh.ncells >= 2 else "single-cell")
     if spec["curve"] > 0:
         rec.label("curved")
